@@ -97,60 +97,106 @@ def lnotab_summary(T, f, dup_lines):
 
 
 def lnotab_rules(rep, T, f, versions, universe):
-    """R1/R2 for one bound lnotab finder and the versions whose tables bind it"""
+    """R1/R2 for one bound lnotab finder and the versions whose tables bind it.  Decided independently of how the finder is written (wrapper, helper generator,
+    loop form): it is specialised on a two-pair co_lnotab of ranged symbolic bytes (interval-guided unrolling, xv/linetab.py), its yields are collected, and the
+    same bytes are decoded by dis.findlinestarts of the version group (unsigned / signed line bytes, stop at the end of the code from 3.8) over the same ranges."""
+    from ..linetab import Undecodable, ref_lnotab, same
+    from ..sve import NeedSplit
     F = T.F
     rep.analysed(f.qualname)
     FN = f.qualname
-    r = lnotab_summary(T, f, False)
-    if "error" in r:
-        rep.ob("R2", FN, "summarisable", False, derived=r["error"])
-    else:
-        ls, e0, e1, off, line = r["loop"], r["e0"], r["e1"], r["off"], r["line"]
-        pairs_ok = "slice(table, 0, None, 2)" in r["pairs"] and "slice(table, 1, None, 2)" in r["pairs"] and r["pairs"].index("0, None, 2") < r["pairs"].index("1, None, 2")
-        rep.ob("R2", FN, "pairs-stride-2-address-then-line", pairs_ok, expected="zip(table[0::2], table[1::2])", derived=r["pairs"][:200])
-        rep.ob("R2", FN, "address-advance", off is not None, expected="address' = address + increment on the non-zero-increment path", derived=show(off))
-        rep.ob("R2", FN, "line-advance", line is not None, expected="line' = line + delta", derived=show(line))
-        ys = r["yields"]
-        if off and line:
-            ok = len(ys) == 1 and repr(ys[0].args[0]) == repr((off[1], line[1]))
-            rep.ob("R2", FN, "emit-before-advance", ok, expected="yield (address, line) with the values before this pair is applied", derived=[show(y.args[0]) for y in ys])
-            if ok:
-                gs0 = strip(ys[0].guards)
-                gs = []
-                for g in gs0:
-                    gs.extend(conjuncts(g))
-                gs = [g for g in gs if "len(table)" not in show(g)]
-                want = {repr(e0)}
-                got = set(repr(g) for g in gs)
-                changed = [g for g in gs if isinstance(g, Op) and g.op == "NotEq" and repr(g.args[0]) == repr(line[1])]
-                rest = got - want - set(repr(g) for g in changed)
-                rep.ob("R2", FN, "yield-guard(dup_lines=False)", repr(e0) in got and len(changed) == 1 and not rest,
-                       expected="increment != 0 and line != lastline", derived=[show(g) for g in gs],
-                       msg="(offset, line) is not emitted exactly when a non-zero address increment follows a line change")
-            # line delta applied on both paths (with and without address increment)
-            applied = 0
-            for g, l in r["falls"]:
-                nv = l.env.get(line[0])
-                if repr(nv) != repr(line[1]):
-                    applied += 1
-            rep.ob("R2", FN, "delta-applied-on-every-pair", applied == len(r["falls"]) and applied >= 2, expected="both paths", derived=applied)
-            # R1 per version group
-            pre = [v for v in versions if v < (3, 6)]
-            post = [v for v in versions if v >= (3, 6)]
-            if pre:
-                rep.ob("R1", FN, "line-delta-signedness@%s" % vlabel(pre, universe), line[2] == "unsigned", expected="unsigned (0..255)", derived=line[2],
-                       msg="line deltas of bytecode before 3.6 are unsigned; the finder bound by these tables sign-extends (a delta of 213 becomes -43)")
-            if post:
-                rep.ob("R1", FN, "line-delta-signedness@%s" % vlabel(post, universe), line[2] == "signed", expected="signed (>= 0x80 -> -0x100)", derived=line[2],
-                       msg="line deltas of 3.6-3.9 bytecode are signed bytes; the finder bound by these tables reads them unsigned")
-        # final yield
-        sp = r["spec"]
-        finals = [e for e in sp.effects if e.kind == "yield" and any(isinstance(g, Op) and g.op == "not" and "loop-exit" in show(g) for g in e.guards)]
-        okf = len(finals) == 1 and off and line and show(finals[0].args[0]) == "(after-%s, after-%s)" % (off[1].name, line[1].name)
-        rep.ob("R2", FN, "final-pair", bool(okf), expected="(address, line) after the last pair, iff the line changed", derived=[show(x.args[0]) for x in finals])
+    C = F.load("xdis.codetype.code30").ns.get("Code3")
+    a1, l1, a2, l2, K = (Sym(n_, "int") for n_ in ("a1", "l1", "a2", "l2", "K"))
+    Fi, cocode = Sym("F", "int"), Sym("cocode", "bytes")
+
+    def compare(table, ranges, code_len, signed, stop, dup):
+        """[disagreements], number of buckets"""
+        todo, bad, nb, runs = [dict(ranges)], [], 0, 0
+        while todo:
+            rg = todo.pop()
+            runs += 1
+            if runs > 6000:
+                return ["more than 6000 buckets"], nb
+            me = Instance(C)
+            me.attrs.update(co_lnotab=list(table), co_firstlineno=Fi, co_code=cocode)
+            sp = Spec(F, assume={repr(Op("len", cocode)): code_len})
+            sp.ranges = dict(rg)
+            sp.eager_generators = True
+            try:
+                got = sp.call(f, [me], {"dup_lines": dup} if dup else {}, None, {})
+                if not isinstance(got, list):
+                    bad.append("%s: the yields of the finder are not decided inside the bucket (%s)" % (rg, show(got)[:60]))
+                    continue
+                want = ref_lnotab(list(table), Fi, signed, sp, code_len=code_len if stop else None, dup_lines=dup)
+            except NeedSplit as ns:
+                lo, hi = rg[ns.atom]
+                if lo >= hi:
+                    bad.append("%s: cannot split %s further" % (rg, ns.atom))
+                    continue
+                x, y = dict(rg), dict(rg)
+                x[ns.atom] = (lo, ns.point)
+                y[ns.atom] = (ns.point + 1, hi)
+                todo += [y, x]
+                continue
+            except Undecodable as ex:
+                bad.append("%s: %s" % (rg, ex))
+                continue
+            nb += 1
+            ok = len(got) == len(want) and all(isinstance(g_, tuple) and len(g_) == 2 and same(g_[0], w_[0], sp) and same(g_[1], w_[1], sp) for g_, w_ in zip(got, want))
+            if not ok:
+                bad.append("increments %s: finder yields %s, dis yields %s" % (
+                    ", ".join("%s=%d..%d" % (k_, v_[0], v_[1]) for k_, v_ in sorted(rg.items())), [tuple(show(x_) for x_ in g_) if isinstance(g_, tuple) else show(g_) for g_ in got][:4],
+                    [(show(w_[0]), show(w_[1])) for w_ in want][:4]))
+        return bad, nb
+    groups = [("pre-3.6", [v for v in versions if v < (3, 6)], False, False), ("3.6-3.7", [v for v in versions if (3, 6) <= v < (3, 8)], True, False),
+              ("3.8-3.9", [v for v in versions if (3, 8) <= v < (3, 10)], True, True)]
+    full = {"a1": (0, 255), "l1": (0, 255), "a2": (0, 255), "l2": (0, 255)}
+    nbuckets = 0
+    for gname, vs, signed, stop in groups:
+        if not vs:
+            continue
+        lab = vlabel(vs, universe)
+        # R1: signedness -- the same comparison against the reader of the *other* signedness tells the two failure modes apart
+        bad, nb = compare([a1, l1, a2, l2], full, 100000, signed, False, False)
+        nbuckets += nb
+        if bad:
+            other_bad, _ = compare([a1, l1, a2, l2], full, 100000, not signed, False, False)
+            wrong_sign = not other_bad
+            rep.ob("R1", FN, "line-delta-signedness@%s" % lab, not wrong_sign, expected="signed (>= 0x80 -> -0x100)" if signed else "unsigned (0..255)",
+                   derived="behaves like the %s reader" % ("unsigned" if signed else "signed") if wrong_sign else "neither reader: see R2",
+                   msg="line deltas of %s bytecode are %s bytes; the finder bound by these tables reads them the other way (e.g. a delta byte of 213 is %s)" % (
+                       gname, "signed" if signed else "unsigned", "213, not -43" if signed else "-43, not 213"))
+        else:
+            rep.ob("R1", FN, "line-delta-signedness@%s" % lab, True, derived="agrees with the %s reader on %d buckets" % ("signed" if signed else "unsigned", nb))
+        rep.ob("R2", FN, "two-pairs(dup_lines=False)@%s" % lab, not bad, expected="the (offset, line) pairs dis.findlinestarts of %s yields, for every class of two (increment, delta) pairs" % gname,
+               derived=bad[:3] or "%d buckets agree" % nb,
+               msg="the line-start finder bound for %s disagrees with dis.findlinestarts: %s" % (gname, "; ".join(bad[:2])))
+        bad_d, nb_d = compare([a1, l1, a2, l2], full, 100000, signed, False, True)
+        nbuckets += nb_d
+        rep.ob("R2", FN, "two-pairs(dup_lines=True)@%s" % lab, not bad_d, expected="as dis, plus an entry for every real address increment below 255 (xdis's dup_lines mode)",
+               derived=bad_d[:3] or "%d buckets agree" % nb_d, msg="dup_lines=True does not report exactly the extra entries it documents: %s" % "; ".join(bad_d[:2]))
+        # the end of the code: co_lnotab entries may lie at or past it (dead code removed after the table was made); dis stops there from 3.8 on, not before
+        endr = {"a1": (1, 254), "l1": (1, 127), "l2": (1, 127), "K": (-3, 30)}
+        bad_e, nb_e = compare([a1, l1, 7, l2, 9, 1], endr, add(a1, K), signed, stop, False)
+        nbuckets += nb_e
+        rep.ob("R2", FN, "end-of-code@%s" % lab, not bad_e, expected="stop at the first entry at or past len(co_code)" if stop else "every entry reported, also those past len(co_code)",
+               derived=bad_e[:3] or "%d buckets agree" % nb_e,
+               msg="entries of co_lnotab at or past the end of the bytecode (%s): %s" % ("dis of 3.8/3.9 stops at the first one" if stop else "dis before 3.8 reports them all", "; ".join(bad_e[:2])))
         # empty table
-        empt = [e for e in sp.effects if e.kind == "yield" and any("Eq(len(table), 0)" == show(g) for g in e.guards)]
-        rep.ob("R2", FN, "empty-table", len(empt) == 1 and show(empt[0].args[0]) == "(0, first)", expected="(0, co_firstlineno)", derived=[show(x.args[0]) for x in empt])
+        for empty in ([], b""):
+            me = Instance(C)
+            me.attrs.update(co_lnotab=empty, co_firstlineno=Fi, co_code=cocode)
+            sp = Spec(F)
+            sp.eager_generators = True
+            try:
+                got = sp.call(f, [me], {}, None, {})
+            except Exception as ex:
+                got = "not evaluable: %s" % ex
+            oke = isinstance(got, list) and len(got) == 1 and got[0] == (0, Fi)
+            rep.ob("R2", FN, "empty-table(%s)@%s" % (type(empty).__name__, lab), oke, expected="(0, co_firstlineno)", derived=show(got)[:80])
+    rep.extra.setdefault("lnotab_buckets", 0)
+    rep.extra["lnotab_buckets"] += nbuckets
+
 
 def run(rep, tier):
     rep.explanation = ("one-iteration summaries (sparse conditional constant propagation, table bytes symbolic) of the lnotab decoder, Code310.co_lines and the "
@@ -362,7 +408,19 @@ def run(rep, tier):
                 rep.ob("R5", fn.qualname, "%s:lastline-follows-yield" % label, good_upd, expected="lastline' = line exactly on the yielding path", derived=upd)
             else:
                 rep.ob("R5", fn.qualname, "%s:initial-lastline" % label, False, expected="one remembered-line variable", derived=[n for n, _ in lastv])
-    colines_finder(f, "3.10-3.12", False)
+    # the finders the 3.10 - 3.12 tables bind (each is examined; they are normally one and the same function)
+    f31x = {}
+    for v_ in ("3.10", "3.11", "3.12"):
+        mv = T.table_for_version(v_)
+        fv_ = mv.ns.get("findlinestarts") if mv else None
+        if isinstance(fv_, FuncRef):
+            f31x.setdefault(fv_.qualname, fv_)
+    if not f31x:
+        raise AnalysisError("no opcode table of 3.10-3.12 binds a findlinestarts function")
+    for fq_, fv_ in sorted(f31x.items()):
+        rep.analysed(fq_)
+        colines_finder(fv_, "3.10-3.12", False)
+    f = sorted(f31x.items())[0][1]
     m313 = T.table_for_version("3.13")
     f313 = m313.ns.get("findlinestarts") if m313 else None
     if isinstance(f313, FuncRef) and f313 is not f:
